@@ -104,7 +104,7 @@ def gen_cases(ctx):
             for l in w["layers"]:
                 if l["kind"] != "unit" and l["tearDown"] and rng.random() < 0.5:
                     l["tearDownFaults"] = [[0, 2]]
-        o = worlds.gen_opts(rng, allow=("repeat", "shuffle"))
+        o = worlds.gen_opts(rng, allow=("repeat", "shuffle", "buffer"))
         o["stopOnError"] = True
         if i % 4 == 0:
             # directed: independent layers, the first cannot be torn down, a later one (run in a child) fails
@@ -140,6 +140,16 @@ def gen_cases(ctx):
                     t2["layer"], t2["module"] = order[1], next(iter(w["modules"]))
                     w["tests"].append(t2)
                     w["modules"][t2["module"]]["suites"].append({"t": "leaf", "id": t2["id"], "lyr": order[1]})
+            if i % 8 == 4:
+                # the runner started through a wrapper script; tests in the parent empty sys.argv in place before the
+                # remaining layers are handed to subprocesses (which must still run with -x)
+                worlds.shape_argv_clobber(rng, w, o)
+                w["layers"][order[0]]["tearDownFaults"] = [[0, 2]]
+                extra_ids = max([x["id"] for x in w["tests"]] + [0]) + 1
+                t2 = worlds.gen_test(rng, extra_ids, [2000], kind="pass", p_write=0.0)
+                t2["layer"], t2["module"] = order[1], next(iter(w["modules"]))
+                w["tests"].append(t2)
+                w["modules"][t2["module"]]["suites"].append({"t": "leaf", "id": t2["id"], "lyr": order[1]})
             cases.append(cw.Case(w, o, "directed-resume"))
             continue
         if rng.random() < 0.15:
